@@ -27,10 +27,10 @@ from .common import Report
 RTOLS = [(1, 65536), (1, 256), (1, 4)]
 
 
-def tracked_graph_direct(rng: random.Random, n_ops: int, backward: bool) -> fx.Graph:
+def tracked_graph_direct(rng: random.Random, n_ops: int, backward: bool, name_output: bool = False) -> fx.Graph:
     from unit_scaling.transforms._track_scales import ScaleTrackingBackend
 
-    gm, nin, nout = fxgen.random_tracked_module(rng, n_ops)
+    gm, nin, nout = fxgen.random_tracked_module(rng, n_ops, name_output=name_output)
     xs = [x.requires_grad_() for x in fxgen.int_inputs(rng, nin)]
     be = ScaleTrackingBackend()
     f = be(gm, xs)
@@ -64,6 +64,14 @@ class DynMod(nn.Module):
         c = self.lin(b) if v % 2 == 0 else torch.mul(input=b, other=a)
         idx = torch.argmax(c, dim=1)
         d = torch.index_select(c, 1, idx)
+        if v % 5 == 0:
+            # user code that calls its result `output`: TorchDynamo names the CALL node "output" and the graph's real output
+            # node "output_1" -- node names are not node kinds
+            output = (d.sum() + c.view(-1).sum()) * 2
+            return output
+        if v % 5 == 1:
+            output = (d.sum() + c.view(-1).sum()).reshape(1)      # a same-scale node named "output": must be pruned like any other
+            return output
         return (d.sum() + c.view(-1).sum()) * 2
 
 
@@ -74,7 +82,7 @@ def tracked_graph_dynamo(rng: random.Random, variant: int) -> fx.Graph:
     m = track_scales(DynMod(variant))
     x = fxgen.int_inputs(rng, 1)[0]
     out = m(x)
-    out.backward()
+    out.sum().backward()
     return m.scales_graph()
 
 
@@ -255,7 +263,7 @@ def generate(gen: List[Any]) -> Tuple[List[Dict[str, Any]], int]:
     """One self-contained case: gen = [family, case seed, (variant)]; recorded in every trace so that a replay re-creates it."""
     crng = random.Random(gen[1])
     if gen[0] == "direct":
-        g = tracked_graph_direct(crng, crng.randint(1, 10), backward=crng.random() < 0.75)
+        g = tracked_graph_direct(crng, crng.randint(1, 10), backward=crng.random() < 0.75, name_output=gen[1] % 4 == 0)
     else:
         g = tracked_graph_dynamo(crng, gen[2])
     tr = traces_for_graph(g, crng)
